@@ -931,7 +931,7 @@ def _is_char_boundary(M, fr, n, a):
     if i == 0 or i == len(s.b): return True
     if i > len(s.b): return False
     return (s.b[i] & 0xC0) != 0x80
-@reg(r'^core::char::methods::<impl char>::(is_ascii_digit|is_ascii_alphabetic|is_ascii_alphanumeric|is_ascii_hexdigit|is_ascii_uppercase|is_ascii_lowercase|is_ascii|is_digit|len_utf8|is_whitespace|is_ascii_whitespace|to_ascii_lowercase|to_ascii_uppercase|is_alphanumeric|is_alphabetic|is_numeric)$')
+@reg(r'^(?:core|std)::char::methods::<impl char>::(is_ascii_digit|is_ascii_alphabetic|is_ascii_alphanumeric|is_ascii_hexdigit|is_ascii_uppercase|is_ascii_lowercase|is_ascii|is_digit|len_utf8|is_whitespace|is_ascii_whitespace|to_ascii_lowercase|to_ascii_uppercase|is_alphanumeric|is_alphabetic|is_numeric)$')
 def _char_class(M, fr, n, a):
     op = n.rsplit('::', 1)[1]; c = simp(D(M, a[0]) if isinstance(a[0], Ref) else a[0])
     def rng(lo, hi): return (lo <= c <= hi) if not is_sym(c) else z3.And(z3.UGE(c, lo), z3.ULE(c, hi))
@@ -1240,3 +1240,98 @@ def _g_count(M, fr, n, a):
 def _g_is_cyclic(M, fr, n, a):
     g = D(M, a[0]); E = set(g.f[1].items)
     return any(_reaches(x, x, E) for x in range(len(g.f[0].items)))
+
+
+@reg(r'^core::str::<impl str>::parse$')
+def _str_parse(M, fr, n, a):
+    """str::parse::<uN/iN> by contract: exact value or Err (empty, non-digit, overflow)"""
+    m = re.search(r'::parse::<(\w+)>$', M.cur_callee)
+    ty = m.group(1) if m else None
+    s_ = as_str(M, a[0])
+    if ty not in INT_W or ty in ('bool', 'char'): raise Unsupported('str::parse::<%s>' % ty)
+    w = INT_W[ty]; sg = ty[0] == 'i'
+    bs = list(s_.b); neg = False
+    E = lambda: err(Agg('ParseIntError', []))
+    if not bs: return E()
+    b0 = bs[0]
+    if isinstance(b0, int):
+        if b0 == 43: bs = bs[1:]
+        elif b0 == 45 and sg: bs = bs[1:]; neg = True
+    else:
+        if M.branch(b0 == 43): bs = bs[1:]
+        elif sg and M.branch(b0 == 45): bs = bs[1:]; neg = True
+    if not bs: return E()
+    digs = []
+    for b in bs:
+        if isinstance(b, int):
+            if not (48 <= b <= 57): return E()
+            digs.append(b - 48)
+        else:
+            if not M.branch(z3.And(z3.UGE(b, 48), z3.ULE(b, 57))): return E()
+            digs.append(z3.ZeroExt(w + 8 - 8, b - 48))
+    if all(isinstance(d, int) for d in digs):
+        v = int(''.join(str(d) for d in digs)); v = -v if neg else v
+        lo = -(1 << (w - 1)) if sg else 0; hi = (1 << (w - 1)) - 1 if sg else (1 << w) - 1
+        return ok(v) if lo <= v <= hi else E()
+    W = w + 8
+    acc = z3.BitVecVal(0, W); ovf = z3.BoolVal(False)
+    lim = (1 << (w - 1)) - 1 if sg else (1 << w) - 1
+    # accumulate in a wider word; a value beyond the type limit at any prefix is an overflow (monotone)
+    if len(digs) * 4 > W - 8: raise Unsupported('digit string too long for the parse model')
+    for d in digs:
+        acc = acc * 10 + (z3.BitVecVal(d, W) if isinstance(d, int) else d)
+    over = z3.UGT(acc, z3.BitVecVal(lim + (1 if (sg and neg) else 0), W))
+    if M.branch(over): return E()
+    v = z3.Extract(w - 1, 0, acc)
+    return ok(-v if neg else v)
+@reg(r'^core::num::<impl (u8|u16|u32|u64|u128|usize|i8|i16|i32|i64|i128)>::from_str_radix$')
+def _from_str_radix(M, fr, n, a):
+    m = re.match(r'^core::num::<impl (\w+)>::from_str_radix$', n); ty = m.group(1)
+    s_ = as_str(M, a[0]); radix = simp(a[1]); w = INT_W[ty]
+    if is_sym(radix) or ty[0] == 'i': raise Unsupported('from_str_radix variant')
+    E = lambda: err(Agg('ParseIntError', []))
+    bs = list(s_.b)
+    if not bs: return E()
+    if isinstance(bs[0], int) and bs[0] == 43: bs = bs[1:]
+    if not bs: return E()
+    W = w + 8; acc = 0; sym = False
+    if len(bs) * (radix.bit_length()) > W - 8 + 8 and not all(isinstance(b, int) for b in bs): raise Unsupported('digit string too long for the radix model')
+    for b in bs:
+        if isinstance(b, int):
+            c = chr(b)
+            if not c.isalnum(): return E()
+            d = int(c, 36)
+            if d >= radix: return E()
+        else:
+            isd = z3.And(z3.UGE(b, 48), z3.ULE(b, min(57, 48 + radix - 1)))
+            up = z3.And(z3.UGE(b, 65), z3.ULE(b, 65 + radix - 11)) if radix > 10 else z3.BoolVal(False)
+            lo = z3.And(z3.UGE(b, 97), z3.ULE(b, 97 + radix - 11)) if radix > 10 else z3.BoolVal(False)
+            k = M.choose([isd, up, lo, z3.Not(z3.Or(isd, up, lo))])
+            if k == 3: return E()
+            d = z3.ZeroExt(W - 8, b - [48, 55, 87][k]); sym = True
+        acc = (acc * radix + d) if not (isinstance(acc, int) and isinstance(d, int)) else acc * radix + d
+        if not isinstance(acc, int) and acc.size() != W: acc = z3.ZeroExt(W - acc.size(), acc)
+    if isinstance(acc, int): return ok(acc) if acc < (1 << w) else E()
+    if M.branch(z3.UGT(acc, z3.BitVecVal((1 << w) - 1, W))): return E()
+    return ok(z3.Extract(w - 1, 0, acc))
+
+@reg(r'^std::option::Option::<std::result::Result<.*>>::transpose$|^std::option::Option::transpose$')
+def _opt_transpose(M, fr, n, a):
+    o = a[0]
+    if disc_of(M, o) == 0: return ok(none())
+    r = o.f[0]
+    return ok(some(r.f[0])) if disc_of(M, r) == 0 else err(r.f[0])
+@reg(r'^std::result::Result::<std::option::Option<.*>, .*>::transpose$|^std::result::Result::transpose$')
+def _res_transpose(M, fr, n, a):
+    r = a[0]
+    if disc_of(M, r) == 1: return some(err(r.f[0]))
+    o = r.f[0]
+    return some(ok(o.f[0])) if disc_of(M, o) == 1 else none()
+
+@reg(r'^std::collections::(HashMap|BTreeMap)::get_key_value$')
+def _hm_get_key_value(M, fr, n, a):
+    hm = D(M, a[0]); i = hm_lookup(M, fr, hm, a[1])
+    if i < 0: return none()
+    r = a[0]
+    while isinstance(M.get(r.cell, r.path), Ref): r = M.get(r.cell, r.path)
+    return some(Agg('()', [Ref(r.cell, r.path + (('i', i), ('f', 0))), Ref(r.cell, r.path + (('i', i), ('f', 1)))]))
